@@ -297,7 +297,11 @@ class Ctx:
                             q = q.get("pat")
                         if q is not None and q.get("k") == "SlicePat" and q.get("rest") and len(q["pats"]) - q.get("nb", 0) - 1 >= 1:
                             looks_last = True
-            if looks_last and any(c["fn"].endswith("Vec::<T, A>::push") for c in calls(f["body"])):
+            # … and extends a run: it assigns to a `.run_length` field
+            bumps = any((n["k"] == "AssignOp" and n.get("l", {}).get("k") == "Field" and n["l"].get("name") == "run_length") or
+                        (n["k"] == "Assign" and n.get("l", {}).get("k") == "Field" and n["l"].get("name") == "run_length" and
+                         any(m["k"] == "Field" and m.get("name") == "run_length" for m in walk(n["r"]))) for n in walk(f["body"]))
+            if looks_last and bumps and any(c["fn"].endswith("Vec::<T, A>::push") for c in calls(f["body"])):
                 out.append(f)
         return out
 
